@@ -195,6 +195,18 @@ def one_fork_helper(F):
     return pred
 
 
+def same_parse(a, b, peers, F, inline, sa, sb):
+    """ordered skeletons equal, or -- when only the layout of branch arms differs -- the sets of maximal step sequences"""
+    if sa == sb:
+        return True
+    try:
+        pa = grammar.skeleton_paths(a, peers, F, inline, RENAME)
+        pb = grammar.skeleton_paths(b, peers, F, inline, RENAME)
+    except OverflowError:
+        return False
+    return pa == pb
+
+
 def fork_methods(F, owner):
     return {p.rsplit("::", 1)[1] for p in F.bodies if p.startswith(owner + "::") and "{closure" not in p and p.count("::") == owner.count("::") + 1}
 
@@ -222,7 +234,7 @@ def skeletons(ck, F):
         n += 1
         sa, sb = norm_skel(grammar.skeleton(a, F=F, distinct=True, inline=inline), fn), \
             norm_skel(grammar.skeleton(b, F=F, distinct=True, inline=inline), fn)
-        ck.require(sa == sb, "C06:SKEL:%s" % fn, "skeleton agreement", "%d cursor/parse steps, identical" % len(sa),
+        ck.require(same_parse(a, b, (), F, inline, sa, sb), "C06:SKEL:%s" % fn, "skeleton agreement", "%d cursor/parse steps, identical" % len(sa),
                    "the analyzer's %s consumes tokens differently from the interpreter's:\n    interpreter: %s\n    analyzer:    %s"
                    % (fn, sa, sb), b.span)
     peers = (EV_E, AN_E)
@@ -238,7 +250,7 @@ def skeletons(ck, F):
         sa, sb = norm_skel(grammar.skeleton(a, peers, F=F, distinct=True, inline=inline)), \
             norm_skel(grammar.skeleton(b, peers, F=F, distinct=True, inline=inline))
         # `ExpressionEvaluator::new(..).evaluate_array_index()` vs `self.expression_analyser().evaluate_array_index()`
-        ck.require(sa == sb, "C06:SKEL:%s" % fe, "skeleton agreement", "%d cursor/parse steps, identical" % len(sa),
+        ck.require(same_parse(a, b, peers, F, inline, sa, sb), "C06:SKEL:%s" % fe, "skeleton agreement", "%d cursor/parse steps, identical" % len(sa),
                    "the analyzer's %s consumes tokens differently from the interpreter's %s:\n    interpreter: %s\n    analyzer:    %s"
                    % (fa, fe, sa, sb), b.span)
     # the THEN/ELSE entry point parses its target the same way
@@ -247,7 +259,7 @@ def skeletons(ck, F):
     if a is not None and b is not None:
         n += 1
         sa, sb = norm_skel(grammar.skeleton(a, F=F, distinct=True, inline=inline)), norm_skel(grammar.skeleton(b, F=F, distinct=True, inline=inline))
-        ck.require(sa == sb, "C06:SKEL:evaluate_statement_or_goto_line_number", "skeleton agreement", "identical",
+        ck.require(same_parse(a, b, (), F, inline, sa, sb), "C06:SKEL:evaluate_statement_or_goto_line_number", "skeleton agreement", "identical",
                    "statement_or_goto_line_number differs: %s vs %s" % (sa, sb), b.span)
     ck.floor("C06.function pairs compared", n, 16)
 
@@ -288,6 +300,21 @@ def analyzer_tier(F, body):
             checks.add("%s==%s" % (role(c.args[0]), role(c.args[1])))
         elif sfx(c.callee, "ValueType::check_variable_name"):
             checks.add("%s:name" % role(c.args[0]))
+        elif c.callee in F.bodies and one_fork_helper(F)(c.callee):
+            # the checks may have been given a name (`Self::check_numeric_operands(&value, &rhs)?`): the helper applies them
+            # to its parameters, i.e. to the caller's operands
+            hb = F.bodies[c.callee]
+
+            def prole(op):
+                pe = strip_expr(hb.expr(op))
+                while pe[0] in ("ref", "place") and pe[0] != "param":
+                    pe = strip_expr(pe[1])
+                return role(c.args[pe[1]]) if pe[0] == "param" and pe[1] < len(c.args) else "?"
+            for hc in hb.calls():
+                if sfx(hc.callee, "ValueType::check_number"):
+                    checks.add("%s:number" % prole(hc.args[0]))
+                elif sfx(hc.callee, "ValueType::check"):
+                    checks.add("%s==%s" % (prole(hc.args[0]), prole(hc.args[1])))
     result = "acc"
     for b, i, pl, rv, sp in body.assigns():
         if b in lb and not pl["proj"] and pl["local"] == s["acc"]:
@@ -416,8 +443,9 @@ def statement_checks(ck, F):
     a = F.bodies.get(AN_S + "::evaluate_for_statement")
     e = F.bodies.get(EV_S + "::evaluate_for_statement")
     if a is not None and e is not None:
-        na = sum(1 for (_ob, c) in deep_calls(F, a, helper) if sfx(c.callee, "ValueType::check_number"))
-        ne = sum(1 for (_ob, c) in deep_calls(F, e, helper) if "TryFrom<abasic_core::value::Value> for f64" in c.callee)
+        from lib import count_deep
+        na = count_deep(F, a, lambda c: sfx(c.callee, "ValueType::check_number"), helper)
+        ne = count_deep(F, e, lambda c: "TryFrom<abasic_core::value::Value> for f64" in c.callee, helper)
         ck.require(na == ne + 1 and ne == 3, "C06:STMT:FOR-count", "paired kind checks",
                    "3 numeric bounds on both sides (+ the variable's own kind in the analyzer)",
                    "FOR: analyzer performs %d numeric checks, interpreter %d conversions" % (na, ne), a.span)
